@@ -356,6 +356,11 @@ fn apply_stack_effects(fun_builder: &mut FunBuilder, instructions: &mut [Symboli
     falls_through = true;
 
     if let SymbolicByteCode::PushHandler((_, label)) = instruction {
+      // the handler is entered by unwinding which restores the depth recorded here
+      if let Some(label_slot) = label_slots.get_mut(label.val() as usize) {
+        *label_slot = Some(slots);
+      }
+
       // TODO handle to many slots
       *instruction = SymbolicByteCode::PushHandler(((slots + parameters) as u16, *label))
     }
